@@ -1,9 +1,47 @@
 import UPVerif.Core.Sexp
 import UPVerif.Core.Fresh
 import UPVerif.Core.Result
-/-! line-protocol handler for C08: fresh-name requests, the grounder's naming, the CompilerResult table -/
+import UPVerif.Core.WellFormed
+import UPVerif.Core.Compile.Named
+import UPVerif.Drv.C06
+/-! line-protocol handler for C08: fresh-name requests, the grounder's naming, the CompilerResult table, the
+    well-formedness judgement `WF.wfProblem` on a problem (`wf`), and the NAMED compiler models with the judgement,
+    the back-map check and the target check on their output (`compile-model`) -/
 namespace UPVerif.Drv.C08
-open UPVerif UPVerif.Fresh UPVerif.Result
+open UPVerif UPVerif.Fresh UPVerif.Result UPVerif.Compile
+
+/-- `(wf T _)` / `(wf F <first failing clause>)` -/
+def wfSexp (P : Problem) : Sexp :=
+  match WF.wfVerdict P with
+  | none => Sexp.tag "wf" [Sexp.ofBool true, .atom "_"]
+  | some c => Sexp.tag "wf" [Sexp.ofBool false, .atom c]
+
+/-- the named compiler models: compiler name ↦ (model, target predicate) -/
+def namedModel (simp : Expr → Expr) (comp : String) : Option ((Problem → Option Compiled) × (Problem → Bool)) :=
+  if comp == "cer" then some (cerCompileN simp, WF.noCondEffects)
+  else if comp == "dcr" then some (dcrCompileN simp (Expr.dnf simp), WF.noDisjunctions)
+  else if comp == "sir" then some (sirCompileN simp, WF.noInvariants)
+  else if comp == "btr" then some (btrCompileN simp, WF.noBoundedFluents)
+  else if comp == "qr" then some (qrCompileN simp, WF.noQuantifiers)
+  else none
+
+/-- the answer of `compile-model`: the compiled problem in C06's canonical view, then the compiled actions in
+    ORDER with their names and origins, the declared fluent names, the judgement, the back-map and target checks -/
+def modelSexp (P : Problem) (c : Compiled) (target : Problem → Bool) : Sexp :=
+  let origin : Option Nat → String := fun b => match b with
+    | none => "_"
+    | some i => match P.actions[i]? with
+      | some oa => oa.name
+      | none => "?"
+  match Drv.C06.compiledSexp P c with
+  | .list xs =>
+    .list (xs ++ [
+      Sexp.tag "names" ((c.prob.actions.zip c.back).map (fun ab => Sexp.ofStrs [ab.1.name, origin ab.2])),
+      Sexp.tag "fluents" (c.prob.fluents.map (fun d => .atom d.ref.name)),
+      wfSexp c.prob,
+      Sexp.tag "back-ok" [Sexp.ofBool (WF.backOK P.actions.length c.prob.actions c.back)],
+      Sexp.tag "target" [Sexp.ofBool (target c.prob)]])
+  | x => x
 
 def nodup (l : List String) : Bool := decide l.Nodup
 
@@ -88,6 +126,20 @@ def handle : Sexp → Sexp
         Sexp.tag "new" [Sexp.ofNat (names.filter (fun n => !orig.contains n)).length]]
     | _, _ => .atom "bad-case"
   | .list [.atom "skip", .atom st] => Sexp.tag "skip" [.atom st]
+  | .list [.atom "wf", ps] =>
+    match parseProblem ps with
+    | none => .atom "bad-case"
+    | some P => wfSexp P
+  | .list [.atom "compile-model", .atom comp, ps] =>
+    match parseProblem ps with
+    | none => .atom "bad-case"
+    | some P =>
+      match namedModel (Drv.C06.simpTotal (SimpCfg.empty P.types)) comp with
+      | none => .atom "bad-case"
+      | some (model, target) =>
+        match model P with
+        | none => .list [.atom "raised"]
+        | some c => modelSexp P c target
   | .list [.atom "result", .atom pb, mb, .atom bk, .list (.atom "plan" :: plan)] =>
     let pbv : Option Bool := if pb == "problem" then some true else if pb == "none" then some false else none
     let table : Option (Option (List (String × Option String))) :=
